@@ -342,10 +342,10 @@ class Network(Module):
             pre_inds = np.asarray(pre_syn_inds[synapse_names[i]])
             post_inds = np.asarray(post_syn_inds[synapse_names[i]])
 
-            # Compute slope and offset of the current through every synapse.
-            pre_v_and_perturbed = jnp.stack(
-                [voltages[pre_inds], voltages[pre_inds] + diff]
-            )
+            # Compute slope and offset of the current through every synapse. The current
+            # is linearized in the postsynaptic voltage (whose equation it enters), so
+            # only the postsynaptic voltage is perturbed.
+            pre_v_and_perturbed = jnp.stack([voltages[pre_inds], voltages[pre_inds]])
             post_v_and_perturbed = jnp.stack(
                 [voltages[post_inds], voltages[post_inds] + diff]
             )
